@@ -167,6 +167,9 @@ func (P *Prog) index() {
 			continue
 		}
 		pk := fnPkgPath(fn)
+		if isUninstantiatedGeneric(fn) {
+			continue // analysed through its instances (ssa.InstantiateGenerics)
+		}
 		if strings.HasPrefix(pk, modPath) && !nonUniversePkgs[pk] {
 			// a generic origin has no instantiated body of interest when instances exist; keep both
 			P.universe = append(P.universe, fn)
@@ -339,4 +342,15 @@ func extName(fn *ssa.Function) string {
 		o = fn.Origin()
 	}
 	return o.String()
+}
+
+// isUninstantiatedGeneric: a generic function (or a closure / method inside a
+// generic) whose body still mentions type parameters
+func isUninstantiatedGeneric(fn *ssa.Function) bool {
+	for f := fn; f != nil; f = f.Parent() {
+		if f.TypeParams().Len() > 0 && len(f.TypeArgs()) == 0 {
+			return true
+		}
+	}
+	return false
 }
